@@ -32,6 +32,9 @@ func init() {
 			return core.Verdict{Status: "skip", Detail: o.skipWhy, Features: o.feats}
 		}
 		if o.diff != "" || o.wf != "" {
+			if id := kf.MatchAfterFailure(c); id != "" {
+				return core.Verdict{Status: "known", Known: id, Features: o.feats}
+			}
 			return core.Verdict{Status: "violation", Detail: describeDiff(c, o), Features: o.feats}
 		}
 		vs, isSel := unwrapSel(o.expr).(*parser.VectorSelector)
@@ -73,6 +76,9 @@ func init() {
 			return core.Verdict{Status: "skip", Detail: o.skipWhy, Features: o.feats}
 		}
 		if o.diff != "" || o.wf != "" {
+			if id := kf.MatchAfterFailure(c); id != "" {
+				return core.Verdict{Status: "known", Known: id, Features: o.feats}
+			}
 			return core.Verdict{Status: "violation", Detail: describeDiff(c, o), Features: o.feats}
 		}
 		call, isCall := unwrapSel(o.expr).(*parser.Call)
@@ -85,7 +91,7 @@ func init() {
 		}
 		nt := false
 		if model, info, modelled := WindowModel(c, call.Func.Name, ms); modelled {
-			tol := oracle.DefaultTol(Scale(c.Series))
+			tol := TolOf(c)
 			if d := modelDiff("reference vs model", model, o.ref, tol); d != "" {
 				return core.Verdict{Status: "infra", Detail: "window model disagrees with the reference engine: " + d + "\nquery: " + c.Query}
 			}
@@ -166,7 +172,7 @@ func init() {
 func rangeVsInstantAt(c *core.Case, rng *oracle.Res, steps []int) string {
 	st := memstore.New(c.Series)
 	eng := NewEngine(c.Lookback, c.Opt, false)
-	tol := oracle.DefaultTol(Scale(c.Series))
+	tol := TolOf(c)
 	done := map[int]bool{}
 	for _, i := range steps {
 		if i < 0 || i >= c.NumSteps() || done[i] {
